@@ -634,7 +634,7 @@ pub fn run(cli: &Cli) {
     let property = cli.extra.get("property").cloned().unwrap_or("C01".into());
     let mut rep = Report::new(&property, "folder", cli.seed, &cli.tier);
     let rt = tokio::runtime::Builder::new_multi_thread().worker_threads(4).enable_all().build().unwrap();
-    let n: u64 = cli.extra.get("cases").and_then(|s| s.parse().ok()).unwrap_or(if cli.tier == "thorough" { 300 } else { 24 });
+    let n: u64 = cli.extra.get("cases").and_then(|s| s.parse().ok()).unwrap_or(if cli.tier == "thorough" { 120 } else { 24 });
     let mut ops = vec![]; let mut imp = vec![];
     let backends: Vec<&str> = if let Some(path) = &cli.replay {
         let v: serde_json::Value = serde_json::from_str(&std::fs::read_to_string(path).unwrap()).unwrap();
